@@ -290,6 +290,8 @@ func abstractObs(w *world, bc *core.Blockchain) string {
 	var sb strings.Builder
 	net := w.net
 	fmt.Fprintf(&sb, "h=%d", bc.BlockHeight())
+	// whitelisted fees: what the cache answers (getWhitelistFeeContracts) and what storage holds
+	fmt.Fprintf(&sb, " wlc=%s wls=%s", joinOrDash(whitelistCached(w, bc)), joinOrDash(whitelistStored(w, bc)))
 	// policy (through the cache getters)
 	pico := bc.GetBaseExecFee() // picoGAS units after Faun
 	fmt.Fprintf(&sb, " fpb=%d eff=%d sp=%d", bc.FeePerByte(), pico, bc.GetStoragePrice())
@@ -359,6 +361,70 @@ func abstractObs(w *world, bc *core.Blockchain) string {
 	sort.Strings(bs)
 	fmt.Fprintf(&sb, " neo=%s", joinOrDash(bs))
 	return sb.String()
+}
+
+func wlEntry(w *world, it stackitem.Item) string {
+	f, ok := it.Value().([]stackitem.Item)
+	if !ok || len(f) < 4 {
+		return "?"
+	}
+	hb, _ := f[0].TryBytes()
+	h, _ := util.Uint160DecodeBytesBE(hb)
+	m, _ := f[1].TryBytes()
+	fee, _ := f[3].TryInteger()
+	return fmt.Sprintf("%s.%s:%s", w.tok(h), string(m), fee)
+}
+
+// whitelistCached walks Policy.getWhitelistFeeContracts (served from the cache) in a test invocation.
+func whitelistCached(w *world, bc *core.Blockchain) []string {
+	bw := io.NewBufBinWriter()
+	emit.AppCall(bw.BinWriter, nativehashes.PolicyContract, "getWhitelistFeeContracts", callflag.ReadOnly)
+	loop := bw.Len()
+	emit.Opcodes(bw.BinWriter, opcode.DUP)
+	emit.Syscall(bw.BinWriter, interopnames.SystemIteratorNext)
+	jmpPos := bw.Len()
+	emit.Instruction(bw.BinWriter, opcode.JMPIFNOT, []byte{0})
+	emit.Opcodes(bw.BinWriter, opcode.DUP)
+	emit.Syscall(bw.BinWriter, interopnames.SystemIteratorValue)
+	emit.Opcodes(bw.BinWriter, opcode.SWAP)
+	emit.Instruction(bw.BinWriter, opcode.JMP, []byte{byte(int8(loop - bw.Len()))})
+	endPos := bw.Len()
+	emit.Opcodes(bw.BinWriter, opcode.DROP)
+	script := bw.Bytes()
+	script[jmpPos+1] = byte(int8(endPos - jmpPos))
+	tx := transaction.New(script, 0)
+	tx.Signers = []transaction.Signer{{Account: w.net.Account(0)}}
+	ic, err := bc.GetTestVM(trigger.Application, tx, nil)
+	if err != nil {
+		return []string{"err"}
+	}
+	defer ic.Finalize()
+	ic.VM.LoadWithFlags(script, callflag.ReadOnly)
+	ic.VM.SetGasLimit(100_0000_0000)
+	if err := ic.VM.Run(); err != nil {
+		return []string{"err"}
+	}
+	var res []string
+	for _, it := range ic.VM.Estack().ToArray() {
+		res = append(res, wlEntry(w, it))
+	}
+	sort.Strings(res)
+	return res
+}
+
+func whitelistStored(w *world, bc *core.Blockchain) []string {
+	var res []string
+	bc.SeekStorage(nativeids.PolicyContract, []byte{16}, func(_, v []byte) bool {
+		it, err := stackitem.Deserialize(v)
+		if err != nil {
+			res = append(res, "?")
+			return true
+		}
+		res = append(res, wlEntry(w, it))
+		return true
+	})
+	sort.Strings(res)
+	return res
 }
 
 func joinOrDash(s []string) string {
